@@ -324,7 +324,7 @@ def run(pid, tier, replay):
                     continue
                 scen.append({"kind": "tlc", "write_gated": True, "yield_after_write": True, "steps": map_hist(h, i), "origin": "tlc-simulate"})
         rnd = random.Random(chk.seed * 7919 + sum(map(ord, pid)))
-        nrand = 250 if chk.quick else 6000
+        nrand = 250 if chk.quick else (3000 if pid == "C18" else 6000)   # writer scenarios log many more events each
         for _ in range(nrand):
             scen.append(dict(random_scenario(rnd, rnd.choice(kinds)), origin="random"))
     for i, s in enumerate(scen):
@@ -368,6 +368,6 @@ def run(pid, tier, replay):
     for s in scen[:2] + scen[-2:]:
         chk.sample({"kind": s["kind"], "origin": s.get("origin"), "steps": s["steps"][:40]})
     chk.assumptions += ["the harness drives zbus through its public API on one thread; zbus's own tasks run only when the executor is ticked",
-                        "timeouts use real timers (40 ms, checked after a 120 ms sleep)",
+                        "timeouts use real timers (40 ms); after a 120 ms sleep the callers are polled once more, so the deadline is seen whatever the reactor thread does",
                         "verdicts come from the property monitor (ConnMon.tla) over observable events only"]
     return chk.finish()
